@@ -157,6 +157,15 @@ func tracerCase(r *rand.Rand, hist map[string]int) (string, any, string, bool) {
 			ms = append(ms, move{2, 0}, move{2, 0}) // many-to-one: both requests in hand, one packet derived from both
 		}
 		m := ms[r.Intn(len(ms))]
+		if fan && r.Intn(2) == 0 {
+			// answer the fan out of order: a middle writer first, then the last, the first one at the end
+			for _, j := range []int{1, nw - 1, 2 % nw} {
+				if owed[j] > 0 {
+					m = move{1, j}
+					break
+				}
+			}
+		}
 		var opG string
 		panicked := false
 		func() {
